@@ -21,6 +21,9 @@ struct Args {
     replay: Option<PathBuf>,
     only: Option<String>,
     scale: f64,
+    digest: Option<usize>,
+    digest_tape: Option<PathBuf>,
+    dump: Option<usize>,
 }
 
 fn parse_args() -> Result<Args, String> {
@@ -34,6 +37,9 @@ fn parse_args() -> Result<Args, String> {
         replay: None,
         only: None,
         scale: 1.0,
+        digest: None,
+        digest_tape: None,
+        dump: None,
     };
     while let Some(arg) = it.next() {
         match arg.as_str() {
@@ -42,6 +48,9 @@ fn parse_args() -> Result<Args, String> {
             "--out" => a.out = Some(it.next().ok_or("--out needs a path")?.into()),
             "--replay" => a.replay = Some(it.next().ok_or("--replay needs a path")?.into()),
             "--only" => a.only = Some(it.next().ok_or("--only needs a name")?),
+            "--digest" => a.digest = Some(it.next().and_then(|s| s.parse().ok()).ok_or("--digest needs a count")?),
+            "--digest-tape" => a.digest_tape = Some(it.next().ok_or("--digest-tape needs a path")?.into()),
+            "--dump" => a.dump = Some(it.next().and_then(|s| s.parse().ok()).ok_or("--dump needs an index")?),
             "--scale" => a.scale = it.next().and_then(|s| s.parse().ok()).ok_or("--scale needs a number")?,
             other => return Err(format!("unknown argument {other}")),
         }
@@ -93,6 +102,40 @@ fn main() -> ExitCode {
         eprintln!("unknown property {}", args.id);
         return ExitCode::from(2);
     };
+
+    // C01 cross-process differential: print one digest per seeded history (the driver runs this
+    // in two separate processes and compares the output)
+    if args.id == "C01" && (args.digest.is_some() || args.digest_tape.is_some()) {
+        const TAPE_LEN: usize = 2600;
+        if let Some(path) = &args.digest_tape {
+            let v: Value = match std::fs::read_to_string(path).map_err(|e| e.to_string()).and_then(|t| serde_json::from_str(&t).map_err(|e| e.to_string())) {
+                Ok(v) => v,
+                Err(e) => {
+                    eprintln!("{e}");
+                    return ExitCode::from(2);
+                }
+            };
+            let tape: Vec<u32> = v.get("tape").and_then(Value::as_array).map(|a| a.iter().map(|x| x.as_u64().unwrap_or(0) as u32).collect()).unwrap_or_default();
+            println!("0 {:?}", engine::guarded(|| props::c01::history_digest(&tape)));
+            return ExitCode::SUCCESS;
+        }
+        let n = args.digest.unwrap();
+        let tapes = engine::seeded_tapes(args.seed ^ 0xC01, n, TAPE_LEN);
+        if let Some(i) = args.dump {
+            let v = json!({"property": "C01", "subcheck": "cross-process", "seed": args.seed, "index": i, "tape": tapes[i],
+                           "message": "the same seeded history produced different results in two separate processes"});
+            let out = args.out.clone().unwrap_or_else(|| PathBuf::from("cross-process.json"));
+            if let Some(parent) = out.parent() {
+                let _ = std::fs::create_dir_all(parent);
+            }
+            let _ = std::fs::write(&out, serde_json::to_string_pretty(&v).unwrap());
+            return ExitCode::SUCCESS;
+        }
+        for (i, tape) in tapes.iter().enumerate() {
+            println!("{i} {:?}", engine::guarded(|| props::c01::history_digest(tape)));
+        }
+        return ExitCode::SUCCESS;
+    }
 
     if let Some(path) = &args.replay {
         return match replay_file(&prop, path) {
